@@ -2346,6 +2346,11 @@ func ruleSurplusArgs(c *Ctx) {
 		if b, ok := sig.Results().At(0).Type().Underlying().(*types.Basic); !ok || b.Kind() != types.Int {
 			continue
 		}
+		// registered for a library-specific property the rule speaks about that library's functions only
+		if file := p.pos(fn.Pos()); (c.Prop == "C18" && !strings.HasPrefix(file, "tablelib.go:")) ||
+			(c.Prop == "C15" && !(strings.HasPrefix(file, "stringlib.go:") || strings.HasPrefix(file, "mathlib.go:"))) {
+			continue
+		}
 		L := fn.Params[0]
 		maxK, variadic, usesTop := surplusInfo(p, fn, getTop, 0)
 		if !usesTop || variadic {
@@ -2386,8 +2391,16 @@ func ruleSurplusArgs(c *Ctx) {
 		}
 		c.check(diff == nil, R, key, pos, fmt.Sprintf("looks at positions up to %d; reaches the same calls with %d, %d and %d arguments", maxK, maxK, maxK+1, maxK+3), fmt.Sprintf("%s looks at argument positions up to %d but behaves differently when called with %d arguments than with %d (an arity test by equality): a surplus argument changes the result — string.find(s, p, 1, true, nil) stops being a plain search", fname(fn), maxK, at, maxK))
 	}
-	c.floor(R, 8)
-	if st := c.Stats[R]; st != nil && judged < 8 {
+	if c.Prop == "C15" || c.Prop == "C18" {
+		c.floor(R, 1)
+	} else {
+		c.floor(R, 8)
+	}
+	minJudged := 8
+	if c.Prop == "C15" || c.Prop == "C18" {
+		minJudged = 1
+	}
+	if st := c.Stats[R]; st != nil && judged < minJudged {
 		c.und(R, "floor", "-", fmt.Sprintf("only %d host functions could be judged", judged))
 	}
 }
